@@ -186,3 +186,8 @@ Example k7_false_nontrivial :
      [Reconnect true; UserSend (pq1 1); UserSend (pq1 2); UserSend (pq1 3); TakeRequest; Yield; TakeRequest; Yield;
       Fail; Reconnect true; TakeRequest; Yield; TakeRequest; Yield; Net [PPubAck 1]; Yield; TakeRequest; Yield] = false.
 Proof. vm_compute. reflexivity. Qed.
+
+(** the read batch limit loses nothing: what one readb call does not take is left for the next *)
+Theorem readb_take_keeps_all inbox :
+  fst (readb_take inbox) ++ snd (readb_take inbox) = inbox /\ (length (fst (readb_take inbox)) <= 9)%nat.
+Proof. unfold readb_take. cbn [fst snd]. split; [apply firstn_skipn|apply firstn_le_length]. Qed.
